@@ -16,6 +16,12 @@ from vf.model import mtext
 
 NAME_CHARS_HOSTILE = [' ', '\t', '\n', '\\', '\xa0', ' ', '\x85', '́', 'é',
                       '\U0001f600', '\x7f', '\x1b', '"', "'", '#', '-', '　', '\r']
+# ... plus every other Unicode white-space / line-break / invisible character that
+# a writer has to escape or a reader might strip
+NAME_CHARS_HOSTILE += [chr(c) for c in (
+    0x0b, 0x0c, 0x1c, 0x1d, 0x1e, 0x1f, 0x1680, 0x2000, 0x2001, 0x2002, 0x2003, 0x2004,
+    0x2005, 0x2006, 0x2007, 0x2008, 0x2009, 0x200a, 0x2028, 0x2029, 0x202f, 0x205f,
+    0x200b, 0xfeff, 0x00ad)]
 NAME_PLAIN = 'abcdefghijklmnopqrstuvwxyzABCXYZ0123456789_-+.'
 LOOKALIKES = ['foo', 'foo.bar', 'foobar', 'foo bar', 'fo', 'foo-1']
 MANIFEST_LOOKALIKES = ['Manifest.txt', 'Manifests', 'manifest', 'Manifest.old',
@@ -89,6 +95,10 @@ def gen_skeleton(rng, max_dirs=6, max_files=18, depth=4, hostile=0.3,
         used = {n['p'].rsplit('/', 1)[-1] for n in nodes
                 if os.path.dirname(n['p']) == parent}
         nm = rand_name(rng, hostile, used)
+        if 'files' not in used and rng.random() < 0.12:
+            # a directory called "files": what lies beneath may be listed by AUX
+            # entries (whose path field has an implicit files/ prefix)
+            nm = 'files'
         sibs = [n['p'].rsplit('/', 1)[-1] for n in nodes
                 if n['t'] == 'd' and os.path.dirname(n['p']) == parent]
         if sibs and rng.random() < 0.25:
